@@ -244,6 +244,36 @@ def runCalls (cfg : Cfg) (st : St) : List Call → St × List Outcome
     let (st, os) := runCalls cfg st cs
     (st, o :: os)
 
+/-! ## `defaultBackoff` (used when `Client.RetryBackoff` is nil) -/
+
+/-- the Retry-After header of the failed response, as `retryAfter` reads it -/
+inductive RetryAfter
+  | absent
+  | secs (i : Int)        -- strconv.Atoi succeeded
+  | invalid               -- neither an integer nor an HTTP date: 0
+deriving DecidableEq, Repr
+
+def second : Int := 1000000000
+def maxBackoff : Int := 10 * second
+
+/-- `defaultBackoff(n, _, res)` in nanoseconds; `jitter` is the random 1..1000 ms it adds -/
+def defaultBackoff (n : Int) (ra : RetryAfter) (jitter : Int) : Int :=
+  match ra with
+  | .secs i => i * second + jitter
+  | .invalid => jitter
+  | .absent =>
+    let n := if n < 1 then 1 else if n > 30 then 30 else n
+    min (2 ^ (n - 1).toNat * second + jitter) maxBackoff
+
+/-- the whole seconds of `d − 1ns`, rounded down: independent of the jitter (`dbo_floor_indep`) -/
+def backoffSeconds (n : Int) (ra : RetryAfter) : Int :=
+  match ra with
+  | .secs i => i
+  | .invalid => 0
+  | .absent =>
+    let n := if n < 1 then 1 else if n > 30 then 30 else n
+    if n ≥ 5 then 9 else 2 ^ (n - 1).toNat
+
 /-! ## readings of the wire log -/
 
 /-- nonces received in response headers, newest first -/
